@@ -446,7 +446,13 @@ def label_rules(facts, rep, R3, ser, par):
         i0 = nxt[0]
         push = [i for i, e in enumerate(evs) if i > i0 and e["callee"].endswith("::push") and e["args"][1][0] == "agg" and e["args"][1][1] == "tuple"]
         wr = [i for i, e in enumerate(evs) if i > i0 and e["callee"].startswith("mila::text_archive::write_")]
-        if push and not wr and p.end == "loop":
+        off0 = strip_refs(evs[push[0]]["args"][1][4][1]) if push and len(evs[push[0]]["args"][1][4]) == 2 else None
+        off0b = strip_refs(evs[push[0]]["args"][1][4][0]) if push and len(evs[push[0]]["args"][1][4]) == 2 else None
+        is_len0 = any(o_ is not None and o_[0] == "call" and o_[1].endswith("::len") for o_ in (off0, off0b))
+        appended0 = any(i > i0 and e["callee"].rsplit("::", 1)[-1] in ("extend", "extend_from_slice", "push", "append", "resize") and
+                        e["args"] and e["args"][0][0] == "ref" and e["args"][0][2] and "u8" in str(e.get("gargs") or "u8") and i not in push
+                        for i, e in enumerate(evs))
+        if push and not wr and p.end == "loop" and not is_len0 and not appended0:
             seen += 1
             bad = "an entry gets a label address recorded (%s) without its message being written in that iteration: the key does not label the start of its own message" % fmt(evs[push[0]]["args"][1][4][1])[:50]
             continue
